@@ -53,6 +53,12 @@ COLUMN_PROFILE = {
     "colname_reuse": True,
 }
 
+# the table profile as it was before the fourth round (no two-sided comparison, whole-path quoting, alias re-use): the thorough tiers explore
+# THESE alternatives to their full bound and the newer ones to the quick bound (DESIGN.md 12.7)
+TABLE_PROFILE_R3 = {k: v for k, v in TABLE_PROFILE.items() if k != "alias_reuse"}
+TABLE_PROFILE_R3["rel"] = [r for r in TABLE_PROFILE["rel"] if r != "path_quoted"]
+TABLE_PROFILE_R3["where"] = [w for w in TABLE_PROFILE["where"] if w != "scalar_cmp_both"]
+
 # a second centre for the table-level ball: a set operation whose branches each read a derived table (alias re-use across branches is then
 # one deviation away)
 TABLE_SETOP = dict(TABLE_PROFILE, top={"query": ["union"], "rel": ["derived"]})
